@@ -132,7 +132,9 @@ def run_property(prop: str, tier: str, runfn, explanation: str, root: str,
                     f"(anchor moved or construct no longer recognised)")
         if not ctx.obs:
             raise AnalysisError("no rule instance was evaluated")
-        if tier == "thorough" and not os.environ.get("PTSTAT_NO_SELFTEST") and not any(not o.ok for o in ctx.obs):
+        _kl = {(k["rule"], k["key"]) for k in load_known().get("findings", []) if k["property"] == prop}
+        # (listed known findings do not stop the self-test: the seeded edits must still be told apart from them)
+        if tier == "thorough" and not os.environ.get("PTSTAT_NO_SELFTEST") and not any(not o.ok and (o.rule, o.key) not in _kl for o in ctx.obs):
             from . import selftest
             res = selftest.run(prop, root)
             ctx.extra["selftest"] = res
